@@ -94,6 +94,24 @@ theorem C02_gen_flatten_guard :
        "return len(space.spaces) == 0 or any((_has_empty_dict(sub) for sub in space.spaces.values()))", "return False"] := by
   decide
 
+/-- does a construction path of an ACL observation run a de-duplication of the four lists?  A DIRECT `ACLObservation(...)` runs
+`__init__` only; `ACLObservation.from_config(...)` runs `from_config` and then `__init__`. -/
+def pathDedups (dedupIn : List String) (kind : String) : Bool :=
+  if kind == "direct" then dedupIn.contains "__init__" else dedupIn.contains "__init__" || dedupIn.contains "from_config"
+
+/-- **every construction site of an ACL observation goes through the de-duplication** (the six direct constructions in
+`FirewallObservation.__init__`, the `from_config` call of `RouterObservation.from_config`), because it lives in `__init__` — which is
+what the model does: `FirewallObs.acl` and `RouterCfg.build` both build through `AclObs.fromConfig` (= `__init__`, `dedupFirst`).
+Moving the statement into `from_config` (seeded C02-e) leaves the firewall's six observations without it: this obligation fails. -/
+theorem C02_gen_acl_construction_paths :
+    ObsCfgTables.aclConstructionSites.all (fun s => pathDedups ObsCfgTables.aclDedupIn s.2.1) = true ∧
+    ObsCfgTables.aclConstructionSites =
+      [("FirewallObservation.__init__", "direct", 6), ("RouterObservation.from_config", "from_config", 1)] ∧
+    ObsCfgTables.aclDedupIn = ["__init__"] := by
+  decide
+
+example : pathDedups ["from_config"] "direct" = false ∧ pathDedups ["from_config"] "from_config" = true := by decide
+
 /-! ### objects built from a scenario's words satisfy the invariant the in-space theorems need -/
 
 theorem mem_padTo {α} {n : Nat} {d x : α} {xs : List α} (h : x ∈ padTo n d xs) : x = d ∨ x ∈ xs := by
